@@ -43,11 +43,11 @@ def main(argv):
             return mod.replay(replay)
         return mod.run(tier)
     except common.Infra as e:
-        print("INFRA-ERROR property=%s %s" % (prop, e))
+        print("INFRA-ERROR property=%s %s" % (prop, e), file=sys.__stdout__)
         return 2
     except Exception:
         traceback.print_exc()
-        print("INFRA-ERROR property=%s unexpected exception in the harness" % prop)
+        print("INFRA-ERROR property=%s unexpected exception in the harness" % prop, file=sys.__stdout__)
         return 2
 
 
